@@ -3,7 +3,7 @@
 # run the quick check of its property, revert; write the detection matrix to /verif/sensitivity.tsv.
 # (exit of each check: 1 = caught, 0 = missed, 2/other = harness problem)
 cd /verif || exit 2
-out=/verif/sensitivity.tsv
+out=/verif/sensitivity.tsv; [ -n "${1:-}" ] && out=/tmp/sensitivity-$1.tsv
 filter="${1:-}"
 echo -e "kind\tid\tproperty\texit\tfirst_signature" > "$out.new"
 run_one() { # kind id prop patch
